@@ -55,6 +55,34 @@ impl Rx {
             _ => panic!("not unix"),
         }
     }
+    /// Read and throw away whatever is queued, without blocking (used after the queue was filled
+    /// with junk on purpose: the marker of `drain` could not even be sent then).
+    pub fn discard_all(&self) -> Vec<Vec<u8>> {
+        let mut kept = vec![];
+        let mut buf = vec![0u8; 70000];
+        match self {
+            Rx::Udp(rx, _) => {
+                let _ = rx.set_nonblocking(true);
+                while let Ok(n) = rx.recv(&mut buf) {
+                    if !buf[..n].starts_with(&MARK) {
+                        kept.push(buf[..n].to_vec());
+                    }
+                }
+                let _ = rx.set_nonblocking(false);
+            }
+            Rx::Unix(rx, _, _) => {
+                let _ = rx.set_nonblocking(true);
+                while let Ok(n) = rx.recv(&mut buf) {
+                    if !buf[..n].starts_with(&MARK) {
+                        kept.push(buf[..n].to_vec());
+                    }
+                }
+                let _ = rx.set_nonblocking(false);
+            }
+        }
+        kept
+    }
+
     pub fn drain(&self) -> Result<Vec<Vec<u8>>, String> {
         let n = SEQ.fetch_add(1, Ordering::SeqCst);
         let mut marker = MARK.to_vec();
@@ -261,6 +289,37 @@ pub fn unbuffered(spec: &crate::Spec) -> Report {
             }
         }
     }
+    // an address list: the first address yielded is the destination, whatever its family
+    if which == "udp" {
+        if let (Some(rx6), Some(rx4)) = (Rx::udp(true), Rx::udp(false)) {
+            for v6_first in [true, false] {
+                let list: Vec<SocketAddr> = if v6_first { vec![rx6.addr(), rx4.addr()] } else { vec![rx4.addr(), rx6.addr()] };
+                let sock = UdpSocket::bind(if v6_first { "[::1]:0" } else { "127.0.0.1:0" }).unwrap();
+                rep.evaluations += 1;
+                match UdpMetricSink::from(&list[..], sock) {
+                    Ok(sink) => {
+                        let r = sink.emit("list:1|c");
+                        let (g6, g4) = (rx6.drain().unwrap_or_default(), rx4.drain().unwrap_or_default());
+                        let (want6, want4) = if v6_first { (1, 0) } else { (0, 1) };
+                        if g6.len() != want6 || g4.len() != want4 || r.is_err() {
+                            bad(&mut rep, &["C13"], "address-list-order", format!("UdpMetricSink::from(&{:?}) emit returned {:?}; {} datagrams arrived at the IPv6 receiver and {} at the IPv4 one (the first address of the list is the destination)", list, r, g6.len(), g4.len()));
+                        }
+                        rep.flag("address-list");
+                    }
+                    Err(e) => bad(&mut rep, &["C13"], "constructor-failed", format!("UdpMetricSink::from(&{:?}) failed: {}", list, e)),
+                }
+                let sock = UdpSocket::bind(if v6_first { "[::1]:0" } else { "127.0.0.1:0" }).unwrap();
+                if let Ok(sink) = BufferedUdpMetricSink::with_capacity(&list[..], sock, 4) {
+                    let _ = sink.emit("toolong");
+                    let (g6, g4) = (rx6.drain().unwrap_or_default(), rx4.drain().unwrap_or_default());
+                    let (want6, want4) = if v6_first { (1, 0) } else { (0, 1) };
+                    if g6.len() != want6 || g4.len() != want4 {
+                        bad(&mut rep, &["C13"], "address-list-order", format!("BufferedUdpMetricSink::with_capacity(&{:?}): {} datagrams at the IPv6 receiver, {} at the IPv4 one", list, g6.len(), g4.len()));
+                    }
+                }
+            }
+        }
+    }
     // address resolution failures are errors, not panics
     if which == "udp" {
         for a in ["asdf", "", "1.2.3.4", "[::1", "127.0.0.1:99999"] {
@@ -283,6 +342,8 @@ enum BOp {
     /// take the Unix server away / bring it back (writes fail with ENOENT while it is away)
     Down,
     Up,
+    /// read stats(): an accessor, must not write anything
+    Stats,
 }
 
 enum BSink {
@@ -317,12 +378,17 @@ pub fn buffered(spec: &crate::Spec) -> Report {
     lens.sort();
     lens.dedup();
     let faults = spec.usize("faults", 0) == 1 && which == "unix";
+    // fault kind: the server is away (ENOENT) or its receive queue is full (EAGAIN on a non-blocking socket)
+    let eagain = faults && spec.str("fault", "enoent") == "eagain";
     if faults {
         // every length that matters for a tiny buffer: 1..=capacity+1
         lens = (1..=cap + 1).collect();
     }
     let mut alpha: Vec<BOp> = lens.iter().map(|l| BOp::Emit(*l)).collect();
     alpha.push(BOp::Flush);
+    if spec.usize("stats", 0) == 1 {
+        alpha.push(BOp::Stats);
+    }
     if faults {
         alpha.push(BOp::Down);
         alpha.push(BOp::Up);
@@ -352,6 +418,9 @@ pub fn buffered(spec: &crate::Spec) -> Report {
             }
             "unix" => {
                 let s = UnixDatagram::unbound().unwrap();
+                if eagain {
+                    s.set_nonblocking(true).unwrap();
+                }
                 BSink::Unix(match cap_opt {
                     Some(c) => BufferedUnixMetricSink::with_capacity(rx.path(), s, c),
                     None => BufferedUnixMetricSink::from(rx.path(), s),
@@ -379,6 +448,33 @@ pub fn buffered(spec: &crate::Spec) -> Report {
         let ctx = format!("{} buffered sink capacity {:?} history {:?}", which, cap_opt, hist);
         for (i, op) in hist.iter().enumerate() {
             match op {
+                BOp::Down if eagain => {
+                    if !down {
+                        // fill the receive queue with junk until the kernel answers EAGAIN
+                        let filler = UnixDatagram::unbound().unwrap();
+                        filler.set_nonblocking(true).unwrap();
+                        let mut junk = MARK.to_vec();
+                        junk.extend_from_slice(b"junk");
+                        let mut n = 0;
+                        while filler.send_to(&junk, unix_path.as_ref().unwrap()).is_ok() && n < 10_000 {
+                            n += 1;
+                        }
+                        down = true;
+                        rep.flag("receive-queue-full");
+                    }
+                    continue;
+                }
+                BOp::Up if eagain => {
+                    if down {
+                        // read the junk away; nothing of the sink's can be in the queue (it was full)
+                        let stray = rx.discard_all();
+                        if !stray.is_empty() {
+                            bad(&mut rep, &["C07", "C13"], "buffered-sent-into-full-queue", format!("{} at op {}: {} datagrams of the sink arrived although the receive queue was full", ctx, i, stray.len()));
+                        }
+                        down = false;
+                    }
+                    continue;
+                }
                 BOp::Down => {
                     if !down {
                         // closing the receiver and removing its path: sends now fail with ENOENT
@@ -399,10 +495,21 @@ pub fn buffered(spec: &crate::Spec) -> Report {
                     }
                     continue;
                 }
+                BOp::Stats => {
+                    let _ = bs.sink().stats();
+                    let wrote = if down { vec![] } else { drain(&rx).unwrap_or_default() };
+                    if !wrote.is_empty() {
+                        bad(&mut rep, &["C19", "C13"], "accessor-wrote", format!("{} at op {}: reading stats() put {} datagrams on the wire ({:?})", ctx, i, wrote.len(), wrote.iter().map(|w| bytes_str(w)).collect::<Vec<_>>()));
+                        broken = true;
+                        break;
+                    }
+                    rep.flag("stats-read-while-buffered");
+                    continue;
+                }
                 _ => {}
             }
             let (call, res) = match op {
-                BOp::Down | BOp::Up => unreachable!(),
+                BOp::Down | BOp::Up | BOp::Stats => unreachable!(),
                 BOp::Emit(l) => {
                     let m = Met { letter: letter(i), len: *l };
                     let text = String::from_utf8(m.bytes()).unwrap();
@@ -447,8 +554,12 @@ pub fn buffered(spec: &crate::Spec) -> Report {
                     tally.bytes_dropped += bytes.len() as u64;
                     attempts.push(Attempt { bytes, ok: false, fail_id: Some(1) });
                     rep.flag("send-refused");
-                    let _ = e;
-                    Res::Err(Some(1), "server down".into())
+                    // the error handed back must be the socket's own
+                    let want = if eagain { std::io::ErrorKind::WouldBlock } else { std::io::ErrorKind::NotFound };
+                    if e.kind() != want {
+                        bad(&mut rep, &["C07", "C13"], "buffered-error-not-the-sockets", format!("{} at op {}: the socket refused with {:?} but the call returned {:?} ({})", ctx, i, want, e.kind(), e));
+                    }
+                    Res::Err(Some(1), "send refused".into())
                 }
                 Err(e) => Res::Err(None, e.to_string()),
             };
